@@ -53,6 +53,8 @@ def run(tier, seed, replay=None):
         allcases = [cases_for(p) for p in range(nproc)]
         # more records than the command's channels hold (1024): 1025, a few thousand
         allcases[1 % nproc].append({"id": 990001, "parallel": 1, "entries": 1025, "big": False, "chunked": False, "inf": False, "seed": seed * 7 + 1})
+        # a run that spans several of the tool's one-second progress ticks with output pending: input and output are FIFOs
+        allcases[0].append({"id": 990003, "parallel": 2, "entries": 3000, "big": False, "chunked": False, "inf": False, "slow": True, "seed": seed * 7 + 3})
         allcases[2 % nproc].append({"id": 990002, "parallel": 4, "entries": 3000 if not thorough else 8000, "big": False, "chunked": False, "inf": True, "seed": seed * 7 + 2})
         import os
         def one(p):
